@@ -1583,12 +1583,12 @@ class Frame(object):
             # hasher constructors reached as attributes
             if meth == 'hasher' and not args:
                 pass
-            if fname in ('hashlib.new',) and args:
+            if fname in ('hashlib.new',) and (args or 'name' in kwargs):
                 record(fname)
-                alg = render(args[0]).strip("'").lower()
+                alg = render(args[0] if args else kwargs['name']).strip("'").lower()
                 h = Hasher(alg)
-                if len(args) > 1:
-                    h.items.extend(as_items(args[1]))
+                if len(args) > 1 or 'data' in kwargs:
+                    h.items.extend(as_items(args[1] if len(args) > 1 else kwargs['data']))
                 return h
             if fname in ('hashes.Hash',) and args:
                 record(fname)
@@ -1691,9 +1691,23 @@ class Frame(object):
                 record(n)
                 fake = ast.Attribute(value=node.args[0], attr=args[1].value, ctx=ast.Load())
                 return self.ev_Attribute(fake, st)
+            if n == 'setattr' and len(args) == 3 and not kwargs and isinstance(args[1], Const) and isinstance(args[1].value, str) and \
+                    args[1].value.isidentifier():
+                # setattr(x, 'name', v) with a decided name is the store x.name = v
+                record(n)
+                fake = ast.copy_location(ast.Attribute(value=node.args[0], attr=args[1].value, ctx=ast.Store()), node)
+                self.assign(fake, args[2], st, node)
+                return Const(None)
             if n in ('iter', 'list', 'tuple') and len(args) == 1 and isinstance(args[0], EachV) and not kwargs:
                 record(n)
                 return args[0]
+            if n == 'zip' and args and not kwargs and all(isinstance(a, ListV) and not any(isinstance(e, EachV) for e in a.elems) for a in args):
+                record(n)
+                return ListV([ListV(list(t), 'tuple') for t in zip(*[a.elems for a in args])], 'list')
+            if n == 'enumerate' and len(args) == 1 and not kwargs and isinstance(args[0], ListV) and \
+                    not any(isinstance(e, EachV) for e in args[0].elems):
+                record(n)
+                return ListV([ListV([Const(i), e], 'tuple') for i, e in enumerate(args[0].elems)], 'list')
             if n == 'divmod' and len(args) == 2 and not kwargs:
                 # divmod(a, b) == (a // b, a % b)
                 record(n)
@@ -1709,6 +1723,9 @@ class Frame(object):
             if isinstance(callee, Sym) and callee.text != n and n not in BUILTIN_TYPES:
                 # a local holding a callable value: the call is a call of that value, whatever the local is named
                 record(callee.text)
+                if callee.text.endswith('.int_to_bytes') and args and len(args) <= 2 and set(kwargs) <= {'minlen'}:
+                    w = args[1] if len(args) > 1 else kwargs.get('minlen', Const(1))       # bound method held in a local
+                    return Bytes([('INT', render(w), render(args[0]))])
                 return Sym('%s(%s)' % (callee.text, self._argtext(args, kwargs)))
             r = self.prog.lookup(self.module, n)
             if isinstance(r, ClassInfo):
